@@ -61,6 +61,7 @@ enum { ST_CREATED, ST_RUNNING, ST_FINISHED };
 static struct cmi_coroutine *co[MAXCO];
 static int nco, cur;                                  /* cur = -1 : main */
 static int st[MAXCO], caller_of[MAXCO], parent_of[MAXCO], kids[MAXCO], started[MAXCO];
+static size_t stack_size_of[MAXCO];
 static uint64_t expect_tok; static int expect_tgt; static bool expect_new;
 static uint64_t exit_tok[MAXCO]; static bool exited_pending; static int exited_who;
 static uint64_t tokctr;
@@ -95,6 +96,10 @@ static bool do_switch(int me, struct sw *s)
     /* ---- we are running again (possibly much later) */
     if (cur != me) { vr_violation("C03/wrong-continuation", "coroutine %d continued although control was handed to %d", me, cur); return false; }
     if (!check_regs(in, out, mi, mo, "API level", me)) return false;
+    /* a (re)start lays out the initial frame at the top of the coroutine's own stack block, every time at the same place */
+    if (s->kind == 3 && s->tgt >= 0) { struct cmi_coroutine *c = co[s->tgt]; size_t gap = (size_t)((c->stack + stack_size_of[s->tgt]) - c->stack_base);
+        if (c->stack_base > c->stack + stack_size_of[s->tgt] || gap >= 32) { vr_violation("C03/stack-top-moved", "coroutine %d after start number %d: its stack top lies %zu bytes below the end of its %zu-byte block", s->tgt, started[s->tgt], gap, stack_size_of[s->tgt]); return false; }
+        VR_CNT("stack_tops_checked_after_a_start"); }
     if (exited_pending) {
         /* somebody returned / exited: control must arrive at its parent with the exit value */
         int w = exited_who; exited_pending = false;
@@ -197,7 +202,8 @@ static void case_api(void)
     probe_entry_target = (void *)body;
     for (int k = 0; k < nco; k++) {
         co[k] = cmi_coroutine_create();
-        cmi_coroutine_initialize(co[k], probe_entry, (void *)(intptr_t)k, NULL, pick_stack_size());
+        stack_size_of[k] = pick_stack_size();
+        cmi_coroutine_initialize(co[k], probe_entry, (void *)(intptr_t)k, NULL, stack_size_of[k]);
         st[k] = ST_CREATED; caller_of[k] = MAIN; parent_of[k] = MAIN; kids[k] = 0; started[k] = 0;
     }
     cur = MAIN; exited_pending = false;
